@@ -75,7 +75,7 @@ CLAIMED = {
  "C10": dict(
     text="Proof: executable model of the connection state machine (state, socket, write registration, output queue, in-callback flag, CONNECT-queued flag) with nested API calls of any depth inside every callback; for all operation lists (API calls, every inbound packet kind incl. refused CONNACK / v5 DISCONNECT / unknown packets, read and write failures, partial and blocked writes, keepalive expiry, reconnects), all callback configurations and protocol versions: is_connected() implies an open socket on which an accepting CONNACK was processed; every connection end that is not a replacement has exactly one on_disconnect, with client-generated result success iff disconnect() was called; per socket the first packet is CONNECT, exactly one CONNECT, nothing after DISCONNECT. Hypotheses are syntactic exclusions matching the open findings F-C10h/i/k (connection calls from the socket teardown/open callbacks); the full statements are refuted by witnesses.",
     ref="4.10", technique="Coq proof: invariants of a connection-state model over all operation lists with nested callback scripts; extracted trace checkers as oracle; differential execution (events + state after every operation)",
-    note="Trusted: Coq kernel, extraction+driver, harness. Callbacks do not raise; no background thread (C07); keepalive expiry is an input (C08 owns timing); partial write abstracted to 'all but the last byte' (C06 owns byte-level writes). The model reads ONE packet per loop_read(); calls that process several packets (stored QoS>0 messages raise max_packets) are judged on the implementation only by multi_packet_oracle (exploration, not proof)."),
+    note="Trusted: Coq kernel, extraction+driver, harness. Callbacks do not raise; no background thread (C07); keepalive expiry is an input (C08 owns timing); partial write abstracted to 'all but the last byte' (C06 owns byte-level writes). loop_read() calls that process several packets (stored messages raise max_packets) are operations of the model too (TLoopReadN: one input per packet, the socket snapshot taken per iteration; lemma loop_read_raw ties the continue-test to what loop_read sees); multi_packet_oracle additionally judges such calls with really stored QoS 1 messages on the implementation alone."),
  "C16": dict(
     text="Proof on the same connection model, socket callbacks installed: on_socket_open/close strictly alternate with the same socket object on every error path; register/unregister-write alternate and lie inside that socket's open/close; whenever an operation returns with an open socket and unsent data a write registration is outstanding (external-loop mode). For all operation lists and nested scripts except reconnect() from the socket teardown callbacks (open finding F-C16a; full statements refuted by witness).",
     ref="4.16", technique="Coq proof: alternation/nesting invariants over all operation lists with nested callback scripts; extracted checkers; differential execution",
